@@ -580,7 +580,8 @@ namespace {
          }
          {
             const ipr::Lexicon& il = lx;
-            std::vector<std::string> words { "static", "const", "static", "virtual", "volatile", "const" };
+            // (spellings in prefix relations included: equality is equality of the whole spelling, in both directions)
+            std::vector<std::string> words { "static", "const", "static", "virtual", "volatile", "const", "stat", "static_assert", "", "in", "inline" };
             std::vector<ipr::Basic_specifier> bs;
             std::vector<ipr::Basic_qualifier> bq;
             for (auto& wd : words) { auto& lg = lx.get_logogram(lx.get_string(vh::u8(wd))); bs.emplace_back(lg); bq.emplace_back(lg); }
